@@ -98,32 +98,30 @@ def findPrev (next : List Int) (target : Int) : Nat → Nat → Option Nat
   | 0, _ => none
   | fuel + 1, prev => if rd next prev = target then some prev else findPrev next target fuel (rd next prev).toNat
 
-/-- `remove_from_edge` -/
-def removeFromEdge (c : CGraph) (e : Nat) : Except CErr CGraph :=
-  let node := (-(rd c.from_ e)).toNat
-  let first := rd c.from_ node
-  let next := rd c.fromMeta e
-  let r : Except CErr CGraph :=
-    if first = (e : Int) then .ok { c with from_ := wr c.from_ node next }
-    else match findPrev c.fromMeta (e : Int) c.capacity first.toNat with
-      | some prev => .ok { c with fromMeta := wr c.fromMeta prev next }
+/-- the common body of `remove_from_edge` / `remove_to_edge`: unlink `e` from the chain of `node` whose head is in
+    `head[node]` and whose links are in `next`; the count in `next[node]` goes down by one -/
+def unlink (head next : List Int) (cap node e : Nat) : Except CErr (List Int × List Int) :=
+  let first := rd head node
+  let nx := rd next e
+  let r : Except CErr (List Int × List Int) :=
+    if first = (e : Int) then .ok (wr head node nx, next)
+    else match findPrev next (e : Int) cap first.toNat with
+      | some prev => .ok (head, wr next prev nx)
       | none => .error CErr.outOfFuel
   match r with
-  | .ok c1 => .ok { c1 with fromMeta := wr c1.fromMeta node (rd c1.fromMeta node - 1) }
+  | .ok (h, n) => .ok (h, wr n node (rd n node - 1))
+  | .error x => .error x
+
+/-- `remove_from_edge` -/
+def removeFromEdge (c : CGraph) (e : Nat) : Except CErr CGraph :=
+  match unlink c.from_ c.fromMeta c.capacity (-(rd c.from_ e)).toNat e with
+  | .ok (h, n) => .ok { c with from_ := h, fromMeta := n }
   | .error x => .error x
 
 /-- `remove_to_edge` -/
 def removeToEdge (c : CGraph) (e : Nat) : Except CErr CGraph :=
-  let node := (-(rd c.to_ e)).toNat
-  let first := rd c.to_ node
-  let next := rd c.toMeta e
-  let r : Except CErr CGraph :=
-    if first = (e : Int) then .ok { c with to_ := wr c.to_ node next }
-    else match findPrev c.toMeta (e : Int) c.capacity first.toNat with
-      | some prev => .ok { c with toMeta := wr c.toMeta prev next }
-      | none => .error CErr.outOfFuel
-  match r with
-  | .ok c1 => .ok { c1 with toMeta := wr c1.toMeta node (rd c1.toMeta node - 1) }
+  match unlink c.to_ c.toMeta c.capacity (-(rd c.to_ e)).toNat e with
+  | .ok (h, n) => .ok { c with to_ := h, toMeta := n }
   | .error x => .error x
 
 /-- `remove_edge` -/
